@@ -23,6 +23,27 @@ theorem to_inline_range_exact_partial (content : Bytes) (s e : Nat)
   simp only [toInlineRange, inline_range_exact_partial content s hascii hcr hs,
     inline_range_exact_partial content e hascii hcr he]
 
+/-- **line numbers are exact for every CR-free text, ASCII or not**: whatever bytes the text holds (any UTF-8,
+even ill-formed), the line the reader reports for a byte offset is its LSP line.  Everything the server
+addresses by line only — code actions, reference locations, symbols, hints — is therefore exact on non-ASCII
+notes; only columns (go-to-definition and rename inside a line) suffer from finding D14. -/
+theorem line_exact_partial (content : Bytes) (off : Nat) (hcr : noCr content = true) (hoff : off ≤ content.length) :
+    (locate (lineStarts content) off).line = (specPos content off).line :=
+  locate_line_eq_specPos_line content off hcr hoff
+
+/-- hence the first line of every block's line range is the LSP line of its first byte, on such text -/
+theorem block_start_line_exact_partial (content : Bytes) (s e : Nat) (hcr : noCr content = true)
+    (hs : s ≤ content.length) : (toLineRange content s e).1 = (specPos content s).line := by
+  simp only [toLineRange]
+  exact line_exact_partial content s hcr hs
+
+/-- non-vacuity: `é😀⏎x`, every offset (the column of offset 6, behind `é😀`, is wrong: D14; the lines are right) -/
+example :
+    let t : Bytes := [0xC3, 0xA9, 0xF0, 0x9F, 0x98, 0x80, 10, 120]
+    noCr t = true ∧ (List.range 9).all (fun off => (locate (lineStarts t) off).line == (specPos t off).line) = true
+      ∧ locate (lineStarts t) 6 ≠ specPos t 6 := by
+  decide
+
 /-- **a link is hit exactly when the cursor is inside its source span** (half-open: the position
 just behind the closing parenthesis is outside) -/
 theorem link_hit_iff (r : Pos × Pos) (p : Pos) :
